@@ -154,7 +154,8 @@ def parseProgram (j : Json) : Except String Program := do
   let g : Graph := {
     nodes := attrs.map (·.1), edges := edges,
     attr := fun n => ((attrs.find? (·.1 == n)).map (·.2)).getD {},
-    input := (getNat? gj "input").getD 0, output := (getNat? gj "output").getD 0 }
+    input := (getNat? gj "input").getD 0, output := (getNat? gj "output").getD 0,
+    order := (getArr gj "order").toList.filterMap fun x => x.getNat?.toOption }
   let cfgOf : Node → NodeCfg := fun n => (cfgs[n]?.map (·.1)).getD {}
   let bsOf : Node → BodySpec := fun n => (cfgs[n]?.map (·.2)).getD {}
   -- collaborator suspension plan: spec.cb = {"nstart": {"3": 1}, "ncomplete": {...}, "save": {...}, "pstart": k, "pcomplete": k}
